@@ -591,6 +591,7 @@ pub fn run_script(script: &Value) -> Vec<String> {
     }
     let r = catch(move || drop(world));
     ledger::disarm();
+    ledger::settle_plain();
     let tfault = ledger::panicked().len() > before;
     if let (Err(msg), false) = (&r, tfault) {
         emit(&cx, json!({"op":"Panic","in":"DropWorld","msg":msg}), None);
